@@ -143,6 +143,13 @@ func (lb *WeightedRandomLoadBalancer) ChooseServer(req *httpprot.Request) *Serve
 		return nil
 	}
 
+	// No usable weights (all zero, e.g. servers without the weight field,
+	// or a non-positive sum from service discovery): rand.Intn would panic,
+	// treat the servers as equally weighted.
+	if lb.totalWeight <= 0 {
+		return lb.Servers[rand.Intn(len(lb.Servers))]
+	}
+
 	randomWeight := rand.Intn(lb.totalWeight)
 	for _, server := range lb.Servers {
 		randomWeight -= server.Weight
